@@ -1,8 +1,6 @@
 /-
   C11 Tie: the functions regenerated from /repo/proxy.go (GojaModel.Generated.C11) equal the hand model the
-  property theorems are about.  Where a repaired variant of a function exists (fixes/C11-*.diff) the tie
-  accepts either variant; Props.lean has the full-strength theorem for the repaired variant and a
-  `_partial` + `_witness` pair for the current one.
+  property theorems are about — exactly the current code, no alternatives.
 -/
 import GojaModel.C11.Model
 import GojaModel.C11.GenPrelude
@@ -17,26 +15,20 @@ theorem tie_complete : gen_complete = Desc.complete := by
   rcases p with ⟨v, w, c, e, g, s⟩
   cases v <;> cases w <;> cases c <;> cases e <;> cases g <;> cases s <;> rfl
 
-/-- one proof script for both variants of `__isCompatibleDescriptor` -/
-local macro "compat_tac" f:ident : tactic => `(tactic| (
+/-- proxy.go:913 __isCompatibleDescriptor: the regenerated function is the hand model (exactly the current code; the
+pre-7553bcd and pre-cc2cbee variants are different functions, Props.*_prefix_witness) -/
+theorem tie_isCompatible : gen_isCompatibleDescriptor = isCompatible := by
   funext ext desc cur
   cases cur with
-  | none => simp [gen_isCompatibleDescriptor, $f:ident]
+  | none => simp [gen_isCompatibleDescriptor, isCompatible]
   | some c =>
     rcases c with ⟨cv, cw, cc, ce, ca, cg, cs⟩
     rcases desc with ⟨dv, dw, dc, de, dg, ds⟩
-    simp only [gen_isCompatibleDescriptor, $f:ident, OVProp.configurable, OVProp.enumerable, OVProp.writable,
+    simp only [gen_isCompatibleDescriptor, isCompatible, OVProp.configurable, OVProp.enumerable, OVProp.writable,
       OVProp.accessor, OVProp.value, OVProp.setterFunc, OVProp.getterFunc, sameAsOpt, Option.isNone_some]
     cases cc <;> cases dv <;> simp
     all_goals (repeat' split)
-    all_goals simp_all))
-
-/-- proxy.go:913 __isCompatibleDescriptor is the current or the repaired variant of the hand model -/
-theorem tie_isCompatible :
-    gen_isCompatibleDescriptor = isCompatible ∨ gen_isCompatibleDescriptor = isCompatibleFixed := by
-  first
-  | (left; compat_tac isCompatible; done)
-  | (right; compat_tac isCompatibleFixed; done)
+    all_goals simp_all
 
 /-- proxy.go:386 -/
 theorem tie_definePostCheck :
@@ -155,12 +147,18 @@ theorem tie_ownKeys : ownKeysWith gen_ownKeysStep1 gen_ownKeysStep2 gen_ownKeysF
   simp only [tie_ownKeysStep1, tie_ownKeysStep2, tie_ownKeysFinish]
   rfl
 
-/-- builtin_object.go:156 the accessor flag of toValueProp: current or repaired condition -/
-theorem tie_toValueProp :
-    toValuePropWith gen_toValuePropAccessor = toValueProp ∨ toValuePropWith gen_toValuePropAccessor = toValuePropFixed := by
-  first
-  | (left; funext d; simp [toValuePropWith, toValueProp, gen_toValuePropAccessor]; done)
-  | (right; funext d; simp [toValuePropWith, toValuePropFixed, gen_toValuePropAccessor]; done)
+/-- builtin_object.go:156 the accessor flag of toValueProp -/
+theorem tie_toValueProp : toValuePropWith gen_toValuePropAccessor = toValueProp := by
+  funext d
+  simp [toValuePropWith, toValueProp, gen_toValuePropAccessor]
+
+/-- the regenerated post-checks composed as the property theorems use them -/
+theorem tie_definePostCheck_hand : gen_proxyDefineOwnPropertyPostCheck = definePostCheckWith isCompatible := by
+  rw [tie_definePostCheck, tie_isCompatible]
+
+theorem tie_gopd_hand :
+    gen_proxyGetOwnPropertyDescriptor (toValuePropWith gen_toValuePropAccessor) = gopdCheckWith isCompatible toValueProp := by
+  rw [tie_gopd, tie_isCompatible, tie_toValueProp]
 
 /-- the Str / Idx / Sym copies of every triplicated proxyObject method are the same text up to the key-kind
 suffix and the name of the key parameter -/
